@@ -41,6 +41,16 @@ def run_case(case):
             rec["runs"].append({"ty": absmodel.abs_type(ty), "err": "NONE"})
         except Exception as e:  # the outcome, not a harness failure
             rec["runs"].append({"ty": absmodel.ABSENT, "err": type(e).__name__})
+    # the per-value types are collected ONCE and merged several times (stored traces feed every later stub run; `stub --diff`
+    # merges twice): an earlier merge - next to an unrelated type, so that it takes the mixed path - must leave them intact
+    try:
+        tys = [get_type(x, k1) for x in reals]
+        shrink_types(tys + [type(None), int], k)
+        shrink_types(list(reversed(tys)) + [get_type([], k1)], k)
+        ty = shrink_types(tys, k)
+        rec["runs"].append({"ty": absmodel.abs_type(ty), "err": "NONE"})
+    except Exception as e:
+        rec["runs"].append({"ty": absmodel.ABSENT, "err": type(e).__name__})
     # the same values with aliasing: structurally equal containers are one object, inside a value and across values
     # (a row stored twice, the () singleton, one dict passed to two calls); the inferred type must not care
     share = {}
